@@ -317,7 +317,15 @@ impl SmModel for AgentModel {
     fn step(&self, s: &Node, a: &Act, acc: &mut Acc) -> Option<Node> {
         let now = s.spec.resolve_time(a)?;
         let step = Step { act: *a, now };
-        let mut real = rebuild(s.spec.tcp, &s.hist, base_instant());
+        let mut real = match guarded(|| rebuild(s.spec.tcp, &s.hist, base_instant())) {
+            Ok(r) => r,
+            Err(p) => {
+                // the history did not panic when it was first executed: replaying it does
+                let b = Breach { property: self.slice.prop, clause: format!("panic/{}/replay", panic_label(&p)), what: format!("the agent panicked while a recorded history was replayed: {}", p.message), expected: "the replies recorded before".into(), observed: format!("panic at {}", p.location) };
+                acc.violation(to_violation(&b, s.spec.tcp, &s.hist));
+                return None;
+            }
+        };
         let mut spec = s.spec.clone();
         acc.evaluations += 1;
         acc.validated += 1;
@@ -395,7 +403,7 @@ impl SmModel for AgentModel {
 
 /// Poll at every reported wake-up until nothing is outstanding (at most 60 service polls).
 pub fn drain(s: &Node, prop: &'static str, acc: &mut Acc) {
-    let real = rebuild(s.spec.tcp, &s.hist, base_instant());
+    let Ok(real) = guarded(|| rebuild(s.spec.tcp, &s.hist, base_instant())) else { return };
     drain_from(s.spec.clone(), real, (*s.hist).clone(), prop, acc);
 }
 
@@ -460,7 +468,10 @@ fn blackbox_completion(real: &mut Real, tcp: bool, from: i64, prefix: &[Step], a
     let mut completions: std::collections::BTreeMap<u128, u32> = Default::default();
     let mut polls = 0;
     let problem: Option<(String, String, String)> = loop {
-        let live_now = real.post().live.iter().any(|l| *l);
+        let live_now = match guarded(|| real.post().live.iter().any(|l| *l)) {
+            Ok(l) => l,
+            Err(p) => break Some((format!("panic/{}/blackbox", panic_label(&p)), format!("the agent panicked while its outstanding requests were inspected: {}", p.message), format!("panic at {}", p.location))),
+        };
         if !live_now {
             break None;
         }
@@ -774,7 +785,21 @@ fn differential(s: &Node, acc: &mut Acc) {
         }
     }
     let _release = Release;
-    for (name, same, diff) in differential_variants(s.spec.tcp, &s.hist) {
+    let variants = match guarded(|| differential_variants(s.spec.tcp, &s.hist)) {
+        Ok(v) => v,
+        Err(p) => {
+            acc.violation(Violation {
+                property: "C20".into(),
+                signature: format!("C20/panic/{}/variant", panic_label(&p)),
+                what: format!("the agent panicked while a history that had run without panic was replayed under the C20 variants: {}", p.message),
+                expected: "identical replies".into(),
+                observed: format!("panic at {}", p.location),
+                replay: replay_json(s.spec.tcp, &s.hist, Some(json!("differential"))),
+            });
+            return;
+        }
+    };
+    for (name, same, diff) in variants {
         acc.evaluations += 1;
         acc.validated += 1;
         if !same {
@@ -803,7 +828,13 @@ pub fn replay(prop: &str, rp: &Value) -> Vec<Violation> {
     });
     let mut acc = Acc::default();
     if rp.get("variant").and_then(|v| v.as_str()) == Some("differential") {
-        for (name, same, diff) in differential_variants(tcp, &steps) {
+        let variants = match guarded(|| differential_variants(tcp, &steps)) {
+            Ok(v) => v,
+            Err(p) => {
+                return vec![Violation { property: "C20".into(), signature: format!("C20/panic/{}/variant", panic_label(&p)), what: format!("the agent panicked under the C20 variants: {}", p.message), expected: "identical replies".into(), observed: format!("panic at {}", p.location), replay: rp.clone() }];
+            }
+        };
+        for (name, same, diff) in variants {
             if !same {
                 let clause = clause_of(&name);
                 acc.violation(Violation { property: "C20".into(), signature: format!("C20/{clause}"), what: format!("replies differ when the history is {name}"), expected: "identical replies".into(), observed: diff, replay: rp.clone() });
